@@ -690,9 +690,9 @@ def _affine_gamma(case, violation) -> bool:
     return violation["label"] == "C08/autogreek/gamma/affine-in-spot-raises"
 
 
-# Candidate finding (not decided): inactive until an entry {"property": "C08", "id": "K5", "status": "known", ...}
-# is appended to known_findings.json.
-KNOWN = {"K5": _affine_gamma}
+# The defect behind this label was repaired in /repo ("fix: autogreek.gamma returns zero for a price that is affine in
+# spot"); the label stays so that the violation is reported again if it ever returns, and nothing is suppressed.
+KNOWN = {}
 
 
 # =========================================================================================
